@@ -128,6 +128,11 @@ def run_property(prop, tier, seed=0, only=None, jobs=None, verbose=True):
             if st:
                 harness_errors.append("selftest: " + st)
         queries = mod.queries(tier)
+        if tier == "thorough" and getattr(mod, "THOROUGH_INCLUDES_QUICK", False):
+            # the thorough tier starts with the whole quick tier (scheduled first), then goes deeper as far as its wall budget allows
+            deep_ids = set(q["id"] for q in queries)
+            first = [dict(q, cost=1000000) for q in mod.queries("quick") if q["id"] not in deep_ids]
+            queries = first + queries
         if only:
             queries = [q for q in queries if any(o in q["id"] for o in only)]
         cap = float(os.environ.get("VERIF_MAX_QUERY_S") or MAX_QUERY_S.get(tier) or 0)
